@@ -83,6 +83,22 @@ TABLE = {
         text="Decides: data is always present and errors present iff the coerced list is non-empty; the error coercer is called once per error and the user's coercer awaited once per call with (exception, default rendering); every source of entries of an errors list produces coercible objects; execute cannot raise past its catch-alls; nothing runs on syntax/validation errors; operation selection is named-and-found / single anonymous / otherwise an error before variable coercion; error records carry message, path, locations. Not decided: the C parser on arbitrary bytes (absent here), locations lying inside the query text.",
         note="-",
     ),
+
+    "C11": dict(
+        technique="table extraction and agreement: lark-expanded BNF vs converter tables, AST class slots vs schema builders, introspection SDL vs Python classes",
+        text="Decides agreement of the tables along SDL text -> lark tree -> AST -> schema objects -> introspection: for each of the 50 visible grammar rules the child kinds it can produce are accepted by the matching converter (23 tables) and every extracted key reaches the AST node constructor; each of the 15 definition/extension AST classes has a builder that reads all its slots; each extension merges all of its parts into the type of the same name; every required field of the 6 introspection types is exposed by each of the 14 inhabiting classes with the right kind constant; introspection aliases (types, directives, fields, args, interfaces, possible types, root types) are filled from the declared data hiding exactly the __ names; @deprecated, includeDeprecated, hiding, __type lookups and the four ways of supplying SDL follow their tables. Not decided: the round trip for all schemas (needs execution); textual fidelity of default values.",
+        note="lark is used only as a grammar reader (Lark(text).rules) - no SDL is parsed and no tartiflette code runs. The inhabitant table is frozen by reading.",
+    ),
+    "C12": dict(
+        technique="method census + must-pass-through on the CFG + clause table with guard conditions",
+        text="Decides: every nullary error-list validator of the schema class is run by one of the two drivers, which accumulate every result and raise iff errors exist; every path of GraphQLSchema.bake to a normal return passes both drivers, with the two exception-swallowing blocks between them; Engine.cook binds the schema only from the awaited bake and sets the cooked flag after it; nothing on the chain create_engine -> cook -> bakery -> SDL parser swallows an exception; each of 27 clause instances of the statement is reported by a validator statement under the guard the clause names; redefinitions raise before any store. Not decided: that each validator's predicate catches the violation at every site of every schema.",
+        note="The clause table is frozen by reading, one line per clause.",
+    ),
+    "C13": dict(
+        technique="fold-direction and call-nesting analysis + wiring table of hook names per schema element class + decision table",
+        text="Decides: wraps_with_directives folds last-to-first wrapping only directives that define the hook, so the first declared is outermost; the executor calls the hook exactly once with that instance's coerced arguments and a partial of the next callable; each of the 10 schema element classes wires exactly its hooks from its own directives (same callable on input and literal side; output hooks once on the abstract->object path); stage order follows from call nesting (coercion before input hooks, output hooks before serialisation, argument hook on the coerced value, query-side wrap around the baked resolver from every merged field node); literal-side type hooks are skipped exactly for top-level variables. Not decided: the induction over 0-3 directives per element (stated, not mechanised); relative order of enum-value and enum-type output hooks (left open by the property).",
+        note="-",
+    ),
 }
 
 NOT_BUILT_REASON = "checker not built yet (build round in progress); see DESIGN.md section 2 for the planned static rules"
